@@ -2,6 +2,7 @@ CONSTANTS
   Good <- MCGood3
   Bad = {}
   MaxOps = 4
+  WithGet = FALSE
 INIT Init
 NEXT Next
 INVARIANTS BatchEq Idempotent NamesUnique Export
